@@ -8,7 +8,7 @@ from .. import runcheck, monitors, problems
 
 
 def run(ctx):
-    bdir, A = runcheck.setup(ctx, ["Wrap:memo_returns|wrappers_pass", "C05"])
+    bdir, A = runcheck.setup(ctx, ["Wrap:memo_returns|wrappers_pass", "C05", "C05Crs"])
     if bdir:
         rng = __import__("random").Random(ctx.seed * 31 + 5)
         ps = []
@@ -52,6 +52,39 @@ def run(ctx):
                 p["quietx"] = 0
                 ps.append(p)
         batch = runcheck.run_batch(ctx, bdir, A, ps, [monitors.mon_best], "incumbent-keeping algorithms")
+        # correspondence for the CRS population rule (Model/Crs.lean, Props/C05Crs.lean): the objective values of every CRS run are
+        # replayed through the model (first N = initial population, rest = trials); the model's best value must be opt_f
+        from ..common import run_model, hexd, unhex
+        text, todo = [], []
+        for p, r, ri in batch:
+            if ri is None or ri.name != "NLOPT_GN_CRS2_LM" or ri.ret is None or ri.ret not in (1, 2, 3, 4, 5, 6) or r.e10 is None:
+                continue
+            try:
+                n_inner = int(r.e10.get("n", ri.n))
+                pop = int(r.e10.get("pop", "0"))
+            except ValueError:
+                continue
+            N = pop if pop > 0 else 10 * (n_inner + 1)
+            vals = [unhex(c.val) for c in ri.objcalls]
+            if ri.maximize:
+                vals = [-v for v in vals]
+            if not vals or any(v != v for v in vals):
+                continue
+            text += ["reset"] + ["%s %s" % ("ci" if k < N else "ct", hexd(v)) for k, v in enumerate(vals)] + ["end c"]
+            todo.append((r, ri))
+        if todo:
+            try:
+                out = [l for l in run_model("inc", "\n".join(text) + "\n") if l.strip()]
+                bad = 0
+                for (r, ri), l in zip(todo, out):
+                    got = -ri.optf if ri.maximize else ri.optf
+                    if unhex(l.split(" ")[0]) != got:
+                        bad += 1
+                        if bad == 1:
+                            ctx.broke("correspondence CRS population rule: model vs crs.c", "model best %s, returned opt_f %r\n spec: %s" % (l, got, r.spec))
+                ctx.corr["CRS population rule"] = {"runs_replayed": len(todo), "disagreements": bad + abs(len(out) - len(todo))}
+            except Exception as e:
+                ctx.broke("inc model driver", repr(e))
         ctx.sample({"spec": batch[0][1].spec})
         ctx.cov["unproved"] = ["incumbent bookkeeping inside BOBYQA/NEWUOA (kopt), DIRECT, CRS, ISRES, ESCH, StoGO, NM/Sbplx, PRAXIS: monitor only"]
     ctx.assumptions += ["NaN objective values are skipped by the C comparisons and by the monitor"]
